@@ -88,7 +88,7 @@ pub fn owns(prop: &str, class: &str) -> bool {
     let own: &[&str] = match prop {
         "C06" => &["C06", "race", "uaf"],
         "C07" => &["C07", "race", "uaf"],
-        "C08" => &["C08", "C03", "livelock", "deadlock", "crash", "hung", "panic"],
+        "C08" => &["C08", "C03", "alloc", "livelock", "deadlock", "crash", "hung", "panic"],
         "C01" => &["C01", "race", "uaf"],
         "C02" => &["C02", "crash"],
         "C03" => &["C03", "alloc", "crash", "hung"],
